@@ -77,7 +77,9 @@ pub fn check(rep: &mut CaseReport, m: &SenderModel, events: &[Event], max_retran
                 }
                 continue;
             }
-            if s.spontaneous && !s.first_tx && !probes.contains(&s.idx) {
+            // (the peer acknowledges nothing in this phase and its noise packets are not duplicate
+            // ACKs: every retransmission is a timeout, whatever else happens at the same instant)
+            if !s.first_tx && !probes.contains(&s.idx) {
                 rep.counters.inc("c06_timeout_retransmissions_checked");
                 if s.idx != first_unacked && !(s.is_fin && m.fin_idx == Some(first_unacked)) {
                     rep.violate(
